@@ -21,7 +21,7 @@ def prog? : SX → Option (List Op)
 
 def pcName : Pc → String
   | .idle => "idle" | .getOrCreate .. => "get_or_create" | .acquire .. => "acquire"
-  | .held .. => "held" | .release .. => "release" | .cleanup .. => "cleanup"
+  | .waiting .. => "waiting" | .held .. => "held" | .release .. => "release" | .cleanup .. => "cleanup"
 
 def pages (s : State) : List Nat :=
   (s.threads.filterMap (fun t => match t.pc with | .held p _ _ => some p | _ => none)).eraseDups
@@ -43,6 +43,14 @@ def step (s : State) (ws : List String) : State × String :=
     | some tid => match TurVerif.PageLocks.step s tid with
       | some s' => (s', showState s' tid)
       | none => (s, "blocked " ++ showState s tid)
+    | none => (s, "bad-op")
+  | ["willblock", t] => match t.toNat? with
+    -- would a step of `tid` now leave it waiting (acquire that cannot be granted)?
+    | some tid => match TurVerif.PageLocks.step s tid with
+      | some s' => match s'.threads[tid]? with
+        | some th => (s, match th.pc with | .waiting .. => "1" | _ => "0")
+        | none => (s, "0")
+      | none => (s, "disabled")
     | none => (s, "bad-op")
   | _ => (s, "bad-op")
 
